@@ -13,7 +13,7 @@ Not decided: "resume within the retry budget" (liveness over fault sequences).
 import ast
 
 from ..model import self_attr, unparse, walk_body_shallow
-from .util import at, call_name, call_recv, calls_in, kwarg, need, node_assign_value, norm, where
+from .util import filtered_collects, isinstance_classes, at, call_name, call_recv, calls_in, kwarg, need, node_assign_value, norm, where
 
 TECHNIQUE = "index-variable def-use in the merge, guard-fact dominance of removals, exhaustiveness of the invalidation table"
 EXPLANATION = (
@@ -181,10 +181,15 @@ def run(ctx):
     r = ctx.rule("R4", "producer resets topic metadata for stale-routing failures before retrying; leader lookup reloads when unknown", 2, "B")
     crp = ctx.func("producer:Producer._handle_send_response._check_retry_payloads")
     rt = [c for c in calls_in(crp, "reset_topic_metadata")]
-    adds = [x for x in ast.walk(crp.node) if isinstance(x, ast.If) and "NotLeaderForPartitionError" in norm(x.test) and
-            "UnknownTopicOrPartitionError" in norm(x.test)]
-    ok = len(rt) == 1 and len(adds) == 1 and any(isinstance(y, ast.Call) and call_name(y) == "add" and norm(y.args[0]).endswith(".topic")
-                                                 for y in ast.walk(adds[0])) and norm(rt[0].args[0]).startswith("*")
+    # the topics to invalidate: collected from the failed payloads whose error is one of the two stale-routing classes
+    adds = []
+    for nm_, elt, src_, tgt_, conds in filtered_collects(crp):
+        if not (norm(elt).endswith(".topic") and isinstance(tgt_, ast.Tuple) and len(tgt_.elts) == 2 and len(conds) == 1):
+            continue
+        cl_ = isinstance_classes(prog, crp, conds[0], unparse(tgt_.elts[1]))
+        if cl_ == {"NotLeaderForPartitionError", "UnknownTopicOrPartitionError"} and norm(elt) == "%s.topic" % unparse(tgt_.elts[0]):
+            adds.append(nm_)
+    ok = len(rt) == 1 and len(adds) == 1 and norm(rt[0].args[0]) == "*" + adds[0]
     r.check(ok, "%s#reset-before-retry" % crp.qname, "producer retry does not invalidate the topics whose partitions reported a stale leader",
             where(crp, crp.node), "every retry goes to the old leader until attempts run out")
     glp = ctx.func(KC + "._get_leader_for_partition")
